@@ -3,6 +3,7 @@
 pub mod rowan {
     use vstd::prelude::*;
     /// text_size::TextSize: a u32 offset
+    #[derive(Clone, Copy)]
     pub struct TextSize { pub raw: u32 }
     pub struct TryFromIntError0 { pub _p: u8 }
     impl vstd::std_specs::fmt::DebugSpecImpl for TryFromIntError0 { open spec fn fmt_req(&self, f: &std::fmt::Formatter<'_>) -> bool { true } }
@@ -18,8 +19,23 @@ pub mod rowan {
         /// text-size: `u32::try_from(value).map(TextSize::from)`
         #[verifier::external_body] fn try_from(v: usize) -> (r: Result<TextSize, TryFromIntError0>) { unimplemented!() }
     }
+    impl std::convert::From<u32> for TextSize {
+        /// text-size: `TextSize { raw }`
+        #[verifier::external_body] fn from(raw: u32) -> (r: TextSize) ensures r.raw == raw { unimplemented!() }
+    }
+    #[derive(Clone, Copy)]
     pub struct TextRange { pub start: TextSize, pub end: TextSize }
     impl TextRange {
+        #[verifier::external_body] pub fn start(self) -> (r: TextSize) ensures r == self.start { unimplemented!() }
+        #[verifier::external_body] pub fn end(self) -> (r: TextSize) ensures r == self.end { unimplemented!() }
+        #[verifier::external_body] pub fn is_empty(self) -> (r: bool) ensures r == (self.start.raw == self.end.raw) { unimplemented!() }
+        /// text-size: `TextRange { start: offset, end: offset }`
+        #[verifier::external_body] pub fn empty(offset: TextSize) -> (r: TextRange) ensures r.start == offset, r.end == offset { unimplemented!() }
+        /// text-size: `TextRange::new(offset, offset + len)` (the addition panics on overflow)
+        #[verifier::external_body] pub fn at(offset: TextSize, len: TextSize) -> (r: TextRange)
+            requires offset.raw + len.raw <= u32::MAX,
+            ensures r.start == offset, r.end.raw == offset.raw + len.raw,
+        { unimplemented!() }
         /// text-size: `assert!(start.raw <= end.raw)`
         #[verifier::external_body] pub fn new(start: TextSize, end: TextSize) -> (r: TextRange)
             requires start.raw <= end.raw,
@@ -36,11 +52,15 @@ impl GreenNode {
     pub uninterp spec fn is_source_file(&self) -> bool;
 }
 impl Clone for GreenNode { #[verifier::external_body] fn clone(&self) -> (r: GreenNode) ensures r == *self { unimplemented!() } }
-#[verifier::external_body] pub struct SyntaxError { _p: u8 }
+@@SYNTAX_ERROR_STRUCT@@
 impl SyntaxError {
-    pub uninterp spec fn range(&self) -> (nat, nat);
-    /// syntax_error.rs: `Self(message.into(), range)`
-    #[verifier::external_body] pub fn new(message: &str, range: TextRange) -> (r: SyntaxError) ensures r.range() == (range.start.raw as nat, range.end.raw as nat) { unimplemented!() }
+    /// the range a diagnostic carries, as (start, end) byte offsets
+    pub open spec fn sp_range(&self) -> (nat, nat) { (self.1.start.raw as nat, self.1.end.raw as nat) }
+    /// syntax_error.rs: `Self(message.into(), range)` (generic `impl Into<String>`; stated for the `&str` the callers pass)
+    #[verifier::external_body] pub fn new(message: &str, range: TextRange) -> (r: SyntaxError) ensures r.1 == range { unimplemented!() }
+    /// syntax_error.rs: `Self(message.into(), TextRange::empty(offset))`
+    #[verifier::external_body] pub fn new_at_offset(message: &str, offset: TextSize) -> (r: SyntaxError) ensures r.1.start == offset, r.1.end == offset { unimplemented!() }
 }
 /// every diagnostic has start <= end <= length of the text (C12)
-pub open spec fn in_text(e: SyntaxError, blen: nat) -> bool { e.range().0 <= e.range().1 && e.range().1 <= blen }
+pub open spec fn in_text(e: SyntaxError, blen: nat) -> bool { e.sp_range().0 <= e.sp_range().1 && e.sp_range().1 <= blen }
+pub mod oq3_syntax { pub use super::SyntaxError; }
